@@ -284,19 +284,22 @@ def stmt(tb: Table, ctx) -> int:
                 k += 1
                 if ch.string():
                     n["cases"].append({"isDef": False, "h": case_header(ch.case_header()), "body": [], "isMsg": True,
-                                       "s": string_tok(ch.string())})
+                                       "s": string_tok(ch.string()), "cline": ch.start.line - 1, "ccol": ch.start.column})
                 else:
                     b = block(tb, ch.stmt())
                     tb.setpar(b, me, "case", k)
-                    n["cases"].append({"isDef": False, "h": case_header(ch.case_header()), "body": b, "isMsg": False, "s": ""})
+                    n["cases"].append({"isDef": False, "h": case_header(ch.case_header()), "body": b, "isMsg": False, "s": "",
+                                       "cline": ch.start.line - 1, "ccol": ch.start.column})
             elif isinstance(ch, P.DefaultContext):
                 k += 1
                 if ch.string():
-                    n["cases"].append({"isDef": True, "h": hdr("", [], ch), "body": [], "isMsg": True, "s": string_tok(ch.string())})
+                    n["cases"].append({"isDef": True, "h": hdr("", [], ch), "body": [], "isMsg": True, "s": string_tok(ch.string()),
+                                       "cline": ch.start.line - 1, "ccol": ch.start.column})
                 else:
                     b = block(tb, ch.stmt())
                     tb.setpar(b, me, "case", k)
-                    n["cases"].append({"isDef": True, "h": hdr("", [], ch), "body": b, "isMsg": False, "s": ""})
+                    n["cases"].append({"isDef": True, "h": hdr("", [], ch), "body": b, "isMsg": False, "s": "",
+                                       "cline": ch.start.line - 1, "ccol": ch.start.column})
         return me
     if ctx.message_switch_block():
         c = ctx.message_switch_block()
@@ -309,12 +312,12 @@ def stmt(tb: Table, ctx) -> int:
                 isMsg = ch.string() is not None
                 b = [] if isMsg else block(tb, ch.stmt())
                 n["cases"].append({"isDef": False, "h": case_header(ch.case_header()), "body": b, "isMsg": isMsg,
-                                   "s": string_tok(ch.string()) if isMsg else ""})
+                                   "s": string_tok(ch.string()) if isMsg else "", "cline": ch.start.line - 1, "ccol": ch.start.column})
             elif isinstance(ch, P.DefaultContext):
                 isMsg = ch.string() is not None
                 b = [] if isMsg else block(tb, ch.stmt())
                 n["cases"].append({"isDef": True, "h": hdr("", [], ch), "body": b, "isMsg": isMsg,
-                                   "s": string_tok(ch.string()) if isMsg else ""})
+                                   "s": string_tok(ch.string()) if isMsg else "", "cline": ch.start.line - 1, "ccol": ch.start.column})
         return me
     if ctx.forever_block():
         c = ctx.forever_block()
